@@ -283,6 +283,21 @@ class Session:
         old_argv = sys.argv
         sys.argv = argv
         code: Any = None
+        # ground truth for the envelope: what main() decided had occurred when it called
+        # handle_output (observed by wrapping the module attribute for this one call)
+        real_handle_output = tmain.handle_output
+        seen: List[Any] = []
+
+        def handle_output_probe(*a: Any, **kw: Any) -> Any:
+            import inspect
+
+            try:
+                seen.append(inspect.signature(real_handle_output).bind(*a, **kw).arguments.get("error"))
+            except TypeError:
+                seen.append("<unbound>")
+            return real_handle_output(*a, **kw)
+
+        tmain.handle_output = handle_output_probe
         try:
             try:
                 tmain.main()
@@ -290,6 +305,8 @@ class Session:
                 code = e.code if isinstance(e.code, (int, type(None))) else str(e.code)
         finally:
             sys.argv = old_argv
+            tmain.handle_output = real_handle_output
+            ev["handle_output_error"] = seen[:1] if seen else None
         out = sys.stdout.getvalue()  # type: ignore
         files = []
         for root, _dirs, names in sorted(os.walk(self.scratch)):
@@ -508,6 +525,9 @@ class Session:
                     ev["outcome"] = "fault"
             ev["fault_fired"] = fired
             ev["fault_at"] = where
+        if tracer is not None and tracer.exc_obj is not None:
+            ev["fault_caught_in"] = faults.caught_in(tracer.exc_obj, self.root)
+            tracer.exc_obj = None
         if tracer is not None:
             ev["events"] = tracer.events
             if tracer.mode == "enumerate":
